@@ -701,3 +701,74 @@ Proof.
   rewrite (quiescent_state_lemma scripts sched m0 HI Hc Hfin l Hl).
   symmetry. apply sequential_state_lemma; try assumption. apply forallb_concat, Hc.
 Qed.
+
+(* ================================================================ run-length encoded scripts *)
+(* the correspondence check evaluates the specification on (call, repetitions) pairs; it is the
+   specification of the expanded script *)
+Lemma iter_cons_sigma l o n : sigma l (N.iter n (cons o) []) = delta l o * n.
+Proof.
+  induction n using N.peano_ind.
+  - simpl. lia.
+  - rewrite N.iter_succ. unfold sigma in *. simpl. rewrite IHn. lia.
+Qed.
+Lemma sigma_expand l segs : sigma l (expand segs) = sigma_segs l segs.
+Proof.
+  unfold expand, sigma_segs. induction segs as [|[o n] r IH]; [reflexivity|].
+  cbn [flat_map fold_right fst snd]. rewrite sigma_app, iter_cons_sigma, IH. reflexivity.
+Qed.
+Lemma iter_cons_forallb (f : op -> bool) o n : f o = true -> forallb f (N.iter n (cons o) []) = true.
+Proof.
+  intros H. induction n using N.peano_ind; [reflexivity|]. rewrite N.iter_succ. simpl. rewrite H, IHn. reflexivity.
+Qed.
+Lemma additive_expand l segs : additive_segs l segs = true -> additive l (expand segs) = true.
+Proof.
+  unfold additive_segs, additive, expand. induction segs as [|[o n] r IH]; [reflexivity|].
+  cbn [forallb flat_map fst snd]. intros H. apply andb_prop in H. destruct H as [H1 H2].
+  rewrite forallb_app, IH by assumption. rewrite iter_cons_forallb by assumption. reflexivity.
+Qed.
+Lemma iter_cons_existsb (f : op -> bool) o n : existsb f (N.iter n (cons o) []) = f o && negb (n =? 0).
+Proof.
+  induction n using N.peano_ind; [rewrite andb_false_r; reflexivity|].
+  rewrite N.iter_succ. simpl. rewrite IHn.
+  destruct (f o); simpl; [|reflexivity]. destruct (N.eqb_spec (N.succ n) 0); [lia|reflexivity].
+Qed.
+Lemma key_incremented_expand k segs : existsb (incr_of_key k) (expand segs) = key_incremented k segs.
+Proof.
+  unfold expand, key_incremented. induction segs as [|[o n] r IH]; [reflexivity|].
+  cbn [flat_map existsb fst snd]. rewrite existsb_app, iter_cons_existsb, IH. reflexivity.
+Qed.
+Lemma expand_concat rle : concat (map expand rle) = expand (concat rle).
+Proof.
+  unfold expand. induction rle as [|s r IH]; [reflexivity|]. simpl. rewrite IH, flat_map_app. reflexivity.
+Qed.
+
+(* what the correspondence check predicts for a concurrent phase given as run-length encoded scripts *)
+Theorem run_length_prediction_lemma l rle sched m0 :
+  Inv m0 -> forallb (additive_segs l) rle = true ->
+  finished (exec_all (map expand rle) m0 sched) = true ->
+  get (c_mem (exec_all (map expand rle) m0 sched)) l = wrap (get m0 l + sigma_segs l (concat rle)).
+Proof.
+  intros HI Ha Hfin.
+  destruct (additive_exact_lemma l (map expand rle) sched m0 HI) as [H _]; [|assumption|].
+  - rewrite forallb_forall in *. intros s Hs. apply in_map_iff in Hs. destruct Hs as (x & <- & Hx).
+    apply additive_expand, Ha, Hx.
+  - rewrite H, expand_concat, sigma_expand. reflexivity.
+Qed.
+
+(* counter.decr(step) adds ^uint64(step-1): that is subtraction mod 2^64, for every step incl. 0 *)
+Lemma decr_arg_val s : s < W -> decr_arg s = wrap (W - s).
+Proof.
+  intros Hs. unfold decr_arg, compl. rewrite (wrap_small s Hs). rewrite wrap_wrap.
+  destruct (N.eq_dec s 0) as [->|Hne].
+  - simpl. reflexivity.
+  - assert (E : wrap (s + (W - 1)) = s - 1).
+    { unfold wrap. replace (s + (W - 1)) with ((s - 1) + 1 * W) by lia.
+      rewrite N.mod_add by apply W_neq0. apply N.mod_small. lia. }
+    rewrite E. rewrite (wrap_small (W - s)) by lia. lia.
+Qed.
+Theorem decr_is_subtraction_lemma x s : s < W -> wrap (wrap (x + s) + decr_arg s) = wrap x.
+Proof.
+  intros Hs. rewrite decr_arg_val by assumption. rewrite wrap_add_l, wrap_add_r.
+  replace (x + s + (W - s)) with (x + W) by lia.
+  unfold wrap. replace (x + W) with (x + 1 * W) by lia. apply N.mod_add, W_neq0.
+Qed.
